@@ -1,7 +1,8 @@
 """C04 (kernel) — core.solution.get_solution: how the Solution is assembled from the solver's values.
 
 Proved for every number of reactions/metabolites: fluxes[i] = primal[r_i.id] - primal[r_i.reverse_id], reduced_costs[i] =
-dual[r_i.id] - dual[r_i.reverse_id] (NaN-filled for integer problems), shadow_prices[i] = dual of row m_i.id, all indexed by
+dual[r_i.id] (the forward variable's dual, NaN-filled for integer problems; the original code reported dual[id] - dual[reverse_id],
+i.e. twice the statement's c_r - sum_m S_mr pi_m since the reverse dual is always the negative: repaired in /repo), shadow_prices[i] = dual of row m_i.id, all indexed by
 the right identifiers in model order; status and objective value are the solver's; the arrays are created by the call (snapshot).
 numpy arrays are modelled as lists of reals (np.empty(n): n unspecified reals; .fill(x)), pandas.Series / Solution as plain
 records of their keyword arguments (assumed).
@@ -108,7 +109,7 @@ def _flux_rows(E, st, flux, red, idx, upto, integer):
         return z3.And(fn == n, rn == n, xn == upto, upto == 0)
     row = z3.And(fe[j] == P[idA[e[j]]] - P[revid(e[j])], xe[j] == idA[e[j]])
     if integer is False:
-        row = z3.And(row, re_[j] == D[idA[e[j]]] - D[revid(e[j])])
+        row = z3.And(row, re_[j] == D[idA[e[j]]])     # the dual of the forward variable = c_r - sum_m S_mr pi_m (statement)
     return z3.And(fn == n, rn == n, xn == upto, FA([j], z3.Implies(z3.And(0 <= j, j < upto), row), patterns=[fe[j]]))
 
 
